@@ -2,7 +2,7 @@
    go/types on this run (Gen_FilterTables.v, Gen_FilterPreds.v). *)
 From Coq Require Import List ZArith Bool String Lia.
 From RG.Base Require Import Outcome.
-From RG.Filters Require Import FilterIR FilterAlgebra Predicates ExprFacts.
+From RG.Filters Require Import FilterIR FilterAlgebra Predicates ExprFacts FileFacts.
 From RGW Require Import Gen_FilterTables Gen_FilterPreds.
 Import ListNotations.
 Local Open Scope string_scope.
@@ -124,3 +124,12 @@ Definition ctor_of_path (p : string) : option ctor_info :=
   | Some (WSpecial ctor) => assoc ctor gen_ctors
   | _ => None
   end.
+
+(* the import set File().Imports looks its argument up in is built by the audited loop (strconv.Unquote of every spec's path
+   literal), set up once per file, assigned nowhere else; the closure is a plain lookup in it *)
+Lemma file_facts_ok : file_facts_okb gen_file_facts = true.
+Proof. vm_compute. reflexivity. Qed.
+
+Lemma imports_closure_ok :
+  match assoc "makeFileImportsFilter" gen_ctors with Some ci => String.eqb (ci_cond ci) doc_imports_closure | None => false end = true.
+Proof. vm_compute. reflexivity. Qed.
